@@ -19,10 +19,15 @@ def run(tier, seed):
     add_list(rep, "C02")
     import contracts.textjoin as TJ
     deductive(rep, "C02", TJ.FUNCS, "contracts.textjoin")
+    import contracts.fragjoin as FJ
+    deductive(rep, "C02", FJ.FUNCS, "contracts.fragjoin")
+    inline_universe(rep, "vf.checks:inline_contracts", tier, "fragments_join", "requires/ensures of the fragments_join contract evaluated natively at every call (validates the text-neutral precondition)", quick_k=3, thorough_k=4)
+    gen_universe(rep, "vf.checks:inline_contracts", "vf.universe:gen_emph", tier, "fragments_join", "same run-time contract evaluation on delimiter-heavy inputs",
+                 ["commonmark", "cm+table+strike"], "all concatenations of <= k pieces over {*, **, _, ~~, ~, a, space, [, ](x), b}", "delimiter universe")
     rep.explanation = (
         "Mixed. Deductive: StateBlock.push is inlined into every leaf block rule and the postconditions 'tokens appended are balanced, level == entry "
         "level + depth, nesting/type/tag as specified, block flag set, state.level restored' are discharged for the seven leaf rules. text_join / _join_children are verified: afterwards no child at any image-nesting depth is a text_special and no two adjacent children are text (modular recursion through the summary predicate Joined). blockquote and list_block restore state.level and push matching open/close tokens around the nested block loop. Bounded: the full "
-        "stream contract of the statement monitored on parse/parseInline output (containers, emphasis pairing, fragments_join, text_join are bounded).")
+        "stream contract of the statement monitored on parse/parseInline output (emphasis pairing and container interplay are bounded). fragments_join is verified: on exit every token's level obeys the depth law (stated locally: level[k] follows from level[k-1] and the two nestings), no two adjacent tokens are text, for arbitrary entry levels, under the vocabulary precondition that text tokens have nesting 0 (validated at run time).")
     rep.trusted_base += STD_TRUST
     rep.assumptions += ["delimiter matching (processDelimiters/_postProcess) is a protocol-level invariant checked only by the bounded stream monitor"]
     return rep
